@@ -32,6 +32,9 @@ theorem intoRoute_priority (P : Parsers) (cfg : Cfg) (src : RuleSource) :
 
 /-! ### no empty list is ever produced -/
 
+theorem ite_isEmpty_ne {α : Type} (l : List α) : (if l.isEmpty then none else some l) ≠ some [] := by
+  cases l <;> simp
+
 /-- **`ips = Some([])` is never produced** — the well-formedness `WFRoute` that W2's
 `remove_returns` (C02) needs holds of every route `IntoRoute` builds, for every source (also
 `ips: []`, also when every cidr is unparsable). -/
@@ -40,39 +43,20 @@ theorem intoRoute_wf (P : Parsers) (cfg : Cfg) (src : RuleSource) : WFRoute (int
   simp only
   cases src.ips with
   | none => simp
-  | some l =>
-    simp only
-    split
-    · simp
-    · rename_i h
-      intro e
-      simp only [Option.some.injEq] at e
-      simp [e] at h
+  | some l => exact ite_isEmpty_ne _
 
 /-- The same for the three date constraints. -/
 theorem intoRoute_no_empty_list (P : Parsers) (cfg : Cfg) (src : RuleSource) :
     (intoRoute P cfg src).ips ≠ some [] ∧ (intoRoute P cfg src).datetime ≠ some [] ∧
     (intoRoute P cfg src).time ≠ some [] ∧ (intoRoute P cfg src).weekdays ≠ some [] := by
   refine ⟨intoRoute_wf P cfg src, ?_, ?_, ?_⟩
-  · unfold intoRoute routeDateTimes
-    simp only
-    split
-    · simp
-    · rename_i h; intro e; simp only [Option.some.injEq] at e; simp [e] at h
-  · unfold intoRoute routeTimes
-    simp only
-    split
-    · simp
-    · rename_i h; intro e; simp only [Option.some.injEq] at e; simp [e] at h
+  · exact ite_isEmpty_ne _
+  · exact ite_isEmpty_ne _
   · unfold intoRoute routeWeekdays
     simp only
     cases src.weekdays with
     | none => simp
-    | some l =>
-      simp only
-      split
-      · simp
-      · rename_i h; intro e; simp only [Option.some.injEq] at e; simp [e] at h
+    | some l => exact ite_isEmpty_ne _
 
 /-! ### ip ranges: unparsable cidrs are dropped, nothing else -/
 
@@ -80,18 +64,13 @@ theorem intoRoute_no_empty_list (P : Parsers) (cfg : Cfg) (src : RuleSource) :
 trigger disappears altogether (`None` = any client) iff none is parsable. -/
 theorem route_ips_spec (P : Parsers) (l : List IpSource) :
     let parsed := l.filterMap fun ip =>
-      (P.cidr ip.range).map fun c => if ip.neg then RouteIp.notInRange c else RouteIp.inRange c
+      match P.cidr ip.range with
+      | some c => some (if ip.neg then RouteIp.notInRange c else RouteIp.inRange c)
+      | none => none
     routeIps P (some l) = if parsed = [] then none else some parsed := by
   intro parsed
   unfold routeIps
-  have : (l.filterMap fun ip =>
-      match P.cidr ip.range with
-      | some c => some (if ip.neg then RouteIp.notInRange c else RouteIp.inRange c)
-      | none => none) = parsed := by
-    apply List.filterMap_congr
-    intro ip _
-    cases P.cidr ip.range <;> rfl
-  simp only [this]
+  show (if parsed.isEmpty then none else some parsed) = _
   cases parsed <;> simp
 
 /-- A rule whose ip constraints are ALL unparsable loses its ip trigger: it applies to every client
@@ -100,7 +79,9 @@ theorem unparsable_ips_match_everyone (P : Parsers) (l : List IpSource)
     (h : ∀ ip ∈ l, P.cidr ip.range = none) : routeIps P (some l) = none := by
   rw [route_ips_spec]
   have : (l.filterMap fun ip =>
-      (P.cidr ip.range).map fun c => if ip.neg then RouteIp.notInRange c else RouteIp.inRange c) = [] := by
+      match P.cidr ip.range with
+      | some c => some (if ip.neg then RouteIp.notInRange c else RouteIp.inRange c)
+      | none => none) = [] := by
     rw [List.filterMap_eq_nil_iff]
     intro ip hip
     simp [h ip hip]
@@ -179,8 +160,9 @@ later, by `HeaderMatcher::insert`). -/
 theorem header_name_kept (ic : Bool) (ms : List Char) (h : HeaderDesc) (rh : RouteHeader)
     (hr : headerOf ic ms h = some rh) : rh.name = h.name := by
   unfold headerOf at hr
-  split at hr <;> (try cases hv : h.value <;> simp_all) <;> (try (split at hr <;> simp_all))
-  all_goals (first | (cases hr; rfl) | skip)
+  cases hv : h.value <;> cases ic <;> simp only [hv, Option.map] at hr <;> split at hr
+  all_goals (try (cases hr <;> rfl))
+  all_goals (try (split at hr <;> cases hr <;> rfl))
 
 /-! ### `exclude_methods: Some(false)` is exclusion (DESIGN §6-O5) -/
 
